@@ -128,7 +128,7 @@ pub fn plan(prop: &str) -> Option<Plan> {
         ),
         "C11" => p(
             "C11",
-            vec![("mpp", 4, false), ("restart", 3, false), ("plain", 1, false)],
+            vec![("mpp", 4, false), ("restart", 4, false), ("plain", 1, false)],
             vec![],
             vec!["c11.timeout-failure-timed"],
             "a run is non-trivial if an MPP-timeout failure was timed against the reference deadline",
